@@ -222,7 +222,7 @@ def run_driver(jobs, deny=(), uid=None, tag="job", timeout=300, extra_args=()):
     return rc, out, results
 
 
-def run_driver_parallel(jobs, deny=(), uid=None, tag="job", shards=None, timeout=300):
+def run_driver_parallel(jobs, deny=(), uid=None, tag="job", shards=None, timeout=300, extra_args=()):
     """Split jobs over several driver processes. Returns (warmups, results-by-id)."""
     shards = shards or min(NCPU, max(1, len(jobs) // 8))
     chunks = [jobs[i::shards] for i in range(shards)]
@@ -230,7 +230,7 @@ def run_driver_parallel(jobs, deny=(), uid=None, tag="job", shards=None, timeout
     byid = {}
     errs = []
     with concurrent.futures.ThreadPoolExecutor(max_workers=shards) as ex:
-        futs = [ex.submit(run_driver, c, deny, uid, f"{tag}{i}", timeout) for i, c in enumerate(chunks) if c]
+        futs = [ex.submit(run_driver, c, deny, uid, f"{tag}{i}", timeout, extra_args) for i, c in enumerate(chunks) if c]
         for f in futs:
             rc, out, results = f.result()
             if rc != 0:
